@@ -38,11 +38,14 @@ if ids:
     rc, out = sh("git diff --quiet", "/repo")
     if rc != 0:
         print("/repo dirty, not applying"); sys.exit(2)
-    rc, out = sh("git apply " + os.path.join(src, "patch.diff"), "/repo")
+    pf = os.path.join(src, "patch.rebased.diff")
+    if not os.path.exists(pf):
+        pf = os.path.join(src, "patch.diff")
+    rc, out = sh("git apply " + pf, "/repo")
     if rc != 0:
-        rc, out = sh("git apply --3way " + os.path.join(src, "patch.diff"), "/repo")
+        rc, out = sh("git apply --3way " + pf, "/repo")
         if rc != 0:
-            print("patch does not apply to /repo:", out); sh("git checkout -q -- . ; git reset -q", "/repo"); sys.exit(2)
+            print("patch does not apply to /repo:", out); sh("git reset -q; git checkout -q -- .", "/repo"); sys.exit(2)
         sh("git reset -q", "/repo")
     try:
         for i in ids:
